@@ -301,19 +301,19 @@ def d4_no_entry_below_highwater(ctx):
     ctx.chk.floor("D4", "packet_log insert sites", n, 1)
 
 
-def d5_srtla_ack_attribution(ctx):
-    pce = ctx.fn(PCE, "D5")
+def d5_srtla_ack_attribution(ctx, rule="D5"):
+    pce = ctx.fn(PCE, rule)
     if not pce:
         return
     pa = ctx.pa(pce)
     cfg = ctx.cfg(pce)
     sites = calls_to(pce, stable=CONN + "::handle_srtla_ack_specific")
-    ctx.WHO_CALLS("D5", CONN + "::handle_srtla_ack_specific", {PCE}, floor=2)
-    ctx.WHO_CALLS("D5", CONN + "::handle_srtla_ack_global", {PCE}, floor=1)
+    ctx.WHO_CALLS(rule, CONN + "::handle_srtla_ack_specific", {PCE}, floor=2)
+    ctx.WHO_CALLS(rule, CONN + "::handle_srtla_ack_global", {PCE}, floor=1)
     idx = [i for i, n in pce.upvar_names.items() if n == "idx"]
     conns = [i for i, n in pce.upvar_names.items() if n == "connections"]
     if len(sites) != 2 or not idx or not conns:
-        ctx.chk.ob("D5", "two SRTLA ACK attribution sites", False, "%d sites" % len(sites), key="D5:site-shape")
+        ctx.chk.ob(rule, "two SRTLA ACK attribution sites", False, "%d sites" % len(sites), key=rule + ":site-shape")
         return
     IDX = ("upvar", idx[0])
     first = second = None
@@ -323,8 +323,8 @@ def d5_srtla_ack_attribution(ctx):
             first = (bb, t, v)
         else:
             second = (bb, t, v)
-    ctx.chk.ob("D5", "the arrival link is asked first", first is not None and second is not None and cfg.dominates(first[0], second[0]),
-               "", key="D5:arrival-first")
+    ctx.chk.ob(rule, "the arrival link is asked first", first is not None and second is not None and cfg.dominates(first[0], second[0]),
+               "", key=rule + ":arrival-first")
     if first is None or second is None:
         return
     fatom = pa.atom(pa.fa._val_call(first[1], (first[0], len(pce.blocks[first[0]]["stmts"])), 0))
@@ -338,8 +338,8 @@ def d5_srtla_ack_attribution(ctx):
         other = ne[0][0][2] if ne[0][0][3] == IDX else ne[0][0][3]
         # the compared index and the link come from the same enumerate element
         link_idx_same = other[0] == "field" and second[2] == ("field", other[1], other[2], "1")
-    ctx.chk.ob("D5", "other links are asked only if the arrival link did not hold the packet, and never the arrival link again",
-               ok1 and ok2 and link_idx_same, "PC(second site) relative: %s" % pa.show(pa.bdd.simplify(pc2, pa.pc_block(first[0])), 3), key="D5:second-site-guard")
+    ctx.chk.ob(rule, "other links are asked only if the arrival link did not hold the packet, and never the arrival link again",
+               ok1 and ok2 and link_idx_same, "PC(second site) relative: %s" % pa.show(pa.bdd.simplify(pc2, pa.pc_block(first[0])), 3), key=rule + ":second-site-guard")
     satom = pa.atom(pa.fa._val_call(second[1], (second[0], len(pce.blocks[second[0]]["stmts"])), 0))
     loop = cfg.innermost_loop_of(second[0])
     if loop:
@@ -348,8 +348,8 @@ def d5_srtla_ack_attribution(ctx):
                 ec = pa.edge_cond(t, h)
                 if pa.sat(pa.bdd.AND(ec, pa.bdd.NOT(ne[0][1]) if ne else ec)):
                     rel = pa.bdd.AND(ec, pa.bdd.NOT(ne[0][1])) if ne else ec
-                    ctx.chk.ob("D5", "the first other holder wins: the scan stops after a link retired the packet", pa.entails(rel, pa.bdd.NOT(satom)),
-                               "", key="D5:scan-stops-at-first-holder")
+                    ctx.chk.ob(rule, "the first other holder wins: the scan stops after a link retired the packet", pa.entails(rel, pa.bdd.NOT(satom)),
+                               "", key=rule + ":scan-stops-at-first-holder")
     # global +1 on every link, once per SRTLA ACK number
     for (bb, t) in calls_to(pce, stable=CONN + "::handle_srtla_ack_global"):
         link = pa.fa.val_operand(t["args"][0], (bb, len(pce.blocks[bb]["stmts"])))
@@ -362,8 +362,8 @@ def d5_srtla_ack_attribution(ctx):
         # whoever retired the packet (or nobody): every path from the attribution to the end of this ACK number's
         # iteration passes the global loop
         uncond = inner is not None and cfg.postdominates(inner, first[0])
-        ctx.chk.ob("D5", "global +1 visits every link once per SRTLA ACK number, whoever retired it", full and same_outer and only_iter and uncond,
-                   "residual %s" % pa.show(rel, 3), key="D5:global-ack-all-links", loc=t.get("loc"))
+        ctx.chk.ob(rule, "global +1 visits every link once per SRTLA ACK number, whoever retired it", full and same_outer and only_iter and uncond,
+                   "residual %s" % pa.show(rel, 3), key=rule + ":global-ack-all-links", loc=t.get("loc"))
 
 
 def d6_registration_at_flush(ctx):
